@@ -143,7 +143,7 @@ def build_ops(seed: int, docs: dict[str, dict], tier: str, out_mode: str = "expl
             ops.append({"op": "GEN", "doc": r.choice(names), "meta": m, "overwrite": (have_gen and r.random() < 0.75) or (precreated and not have_gen and r.random() < 0.5)})
             have_gen = True
         elif c < 0.65:
-            ops.append({"op": "USER", "action": r.choice(["write", "write", "modify", "delete", "write-generated", "delete-generated", "rmdir-models"]),
+            ops.append({"op": "USER", "action": r.choice(["write", "write", "modify", "delete", "write-generated", "delete-generated", "rmdir-models"] * 3 + ["link-subpackage"]),
                         "where": r.choice(["root", "package", "subdir", "pkgsubdir"]), "n": r.randrange(1000)})
         elif c < 0.88:
             # hard: the process is KILLED (no clean-up handler reaches the disk); soft: it dies of an exception
@@ -563,6 +563,19 @@ class World:
                 else:
                     os.unlink(os.path.join(self.O, rel))
                 self.expected_known = False
+        elif act == "link-subpackage":
+            # the user moved the generated models/ (or api/) package to a directory OUTSIDE the output location and left a symbolic
+            # link in its place (a package shared between two checkouts).  A later --overwrite cannot empty it (rmtree refuses a
+            # link): whatever the command then does, it must not write through the link into the shared directory
+            sub = ("models", "api")[n % 2]
+            src = os.path.join(self.O, pkg, sub)
+            dst = os.path.join(self.P, f"shared_{sub}_{n}")
+            if os.path.isdir(src) and not os.path.islink(src) and not os.path.lexists(dst):
+                shutil.move(src, dst)
+                os.symlink(dst, src)
+                self.expected_known = False
+                self.linked = True
+                self.probe("user-linked-subpackage")
         elif act == "rmdir-models":
             shutil.rmtree(os.path.join(self.O, pkg, "models"), ignore_errors=True)
             self.expected_known = False
